@@ -208,7 +208,9 @@ def make_distance_matrix_from_adjacency_matrix(AG):
         _, components_by_vertex = connected_components(AG, directed=False)
         components, component_sizes = np.unique(components_by_vertex, return_counts=True)
         largest_component = components[np.argmax(component_sizes)]
-        DG = DG[components_by_vertex == largest_component]
+        # keep the rows *and* columns of the largest component
+        in_largest = components_by_vertex == largest_component
+        DG = DG[np.ix_(in_largest, in_largest)]
 
     # Cast distance matrix to optimal integer type.
     DG = cast_distance_matrix_to_optimal_int_type(DG)
